@@ -8,22 +8,21 @@ impl<'a, Block> BlockChain<'a, Block> {
     { unimplemented!() }
 }
 
-// the per-height rows (hash, depth) of block_hashes_with_depths_by_heights, as a spec value
-uninterp spec fn rows_spec(t: &BlockTree<CachedBlock>) -> Seq<Seq<(BlockHash, u32)>>;
-spec fn row_view(r: Seq<(&BlockHash, u32)>) -> Seq<(BlockHash, u32)> {
-    Seq::new(r.len(), |i: int| (*r[i].0, r[i].1))
-}
+// the per-height rows of the unstable tree (proved in fragment rows.tpl to be what block_hashes_with_depths_by_heights returns)
+spec fn rows_spec(t: &BlockTree<CachedBlock>) -> Seq<Seq<(BlockHash, u32)>> { t.contrib(0) }
 impl UnstableBlocks {
-    // [trusted:assumed-contract] UnstableBlocks::block_hashes_with_depths_by_heights (blocktree.rs:628-658, `resize` + nested
-    // `&mut Vec<Vec<(&BlockHash,u32)>>` recursion): one row per height of the tree; row h lists the blocks at distance h from the
-    // anchor with the length of their longest descendant chain (checked on bounded trees by Kani harness c04_rows_*)
-    #[verifier::external_body]
-    fn block_hashes_with_depths_by_heights(&self) -> (r: Vec<Vec<(&BlockHash, u32)>>)
-        ensures
-            r@.len() == self.tree.sdepth(),
-            r@.len() == rows_spec(&self.tree).len(),
-            forall|i: int| 0 <= i < r@.len() ==> row_view((#[trigger] r@[i])@) =~= rows_spec(&self.tree)[i],
-    { unimplemented!() }
+//@extract file=canister/src/unstable_blocks.rs in="impl UnstableBlocks" item="fn block_hashes_with_depths_by_heights" props=C04,C05
+//@ ret r
+//@ spec
+//@| requires self.tree.wf_depth(),
+//@| ensures
+//@|     rows_view(r@) =~= rows_spec(&self.tree),
+//@|     r@.len() == rows_spec(&self.tree).len(),
+//@|     r@.len() == self.tree.sdepth(),
+//@|     forall|i: int| 0 <= i < r@.len() ==> row_view((#[trigger] r@[i])@) =~= rows_spec(&self.tree)[i],
+//@ before "self.tree.block_hashes_with_depths_by_heights()"
+//@| proof { self.tree.lemma_contrib_len(0); self.tree.lemma_depth_pos(); }
+//@end
 }
 
 // ---- C04: stability count, written from the statement -----------------------------------------------------------
